@@ -7,6 +7,15 @@ TRUSTED_COMMON = [
 ]
 
 PROPS = {
+    "C13": {
+        "title": "Fast-sync continuity",
+        "design_ref": "DESIGN.md §3 C13",
+        "technique": "exact operational Lean model of Reset / InsertFrameEvent / lower bound tied by differential correspondence + continuity oracle (hashgraph level and real cores); Lean theorems on the block-index base after reset",
+        "level_text": "PARTIAL proof (Lean 4): after a reset the delivered indexes continue consecutively from the anchor (block_indexes_consecutive_after_reset, C02) and the passes keep the append-only / output-table invariants; the unconditional continuity statement is NOT a theorem (it is false for some histories: see the recorded finding). It is decided by the correspondence of the exact operational model (Reset, InsertFrameEvent, round lower bound, missing rounds, validator-set history shipped with the frame) with the code, and by the oracle: for every anchor of every run a node reset from the full node's block + frame (through JSON) and fed the rest of the history must deliver the full node's blocks (body hash) and validator-set table; frames of one round computed by nodes with different insertion orders must be identical; the same on real cores fast-forwarding at a moment where a membership change is pending.",
+        "level_note": "Trusted: hand-written operational model tied by correspondence; Lean kernel for the index theorems. Known finding: events of a lagging creator older than the root window (ROOT_DEPTH) get a different round on a reset node.",
+        "trusted_base": ["operational model Babble.HG (resetFrom, insertFrameEvent, rrLoop with lower bound) tied to Hashgraph.Reset by correspondence"],
+        "assumptions": ["the reset node can insert the events it receives (property's own proviso)"],
+    },
     "C10": {
         "title": "Validator-set history is a replayable function of the committed blocks",
         "design_ref": "DESIGN.md §3 C10",
